@@ -815,6 +815,15 @@ def RebuildProxy(func, token, serializer, kwds):
     # also while a spawned child process is bootstrapping (`current_process()._inheriting`);
     # the standard lib skips `incref` in that case, which here would leak the reference.
     incref = kwds.pop('incref', True)
+    if 'authkey' not in kwds:
+        server = get_server(token.address)
+        if server:
+            # The proxy is being rebuilt in the server process that hosts its target object
+            # (e.g. it is an argument of a call). It must carry the server's authkey, which it
+            # passes on when it is pickled again (returned to a client); the default,
+            # `current_process().authkey` of the server process, is a different key if the
+            # manager was created with an explicit `authkey`.
+            kwds['authkey'] = server.authkey
     obj = func(token, serializer, incref=incref, **kwds)
     # `func` is either `AutoProxy` or a subclass of `BaseProxy`.
 
